@@ -370,7 +370,9 @@ package erpc
 // clones of its own later), not just the clone itself. ghost.invoked records
 // which func values were called.
 //@ ghost global invoked intset
-//@ iface dynamic:func()
+// (scoped to the refresher closure: tree refreshers only rebuild plugin lists)
+//@ iface dynamic:func() in erpc.(*PluginContainer).cloneAndAppendMiddle$1
+//@   modifies allof(type(pluginSingleContainer)), allelems(type(Plugin))
 //@   ghostset ghost.invoked = store(old(ghost.invoked), callee, true)
 //@ func (*PluginContainer).cloneAndAppendMiddle$1
 //@   property C09
